@@ -1,7 +1,6 @@
 package engines
 
 import (
-	"errors"
 	"fmt"
 	"math"
 	"runtime"
@@ -68,7 +67,7 @@ func (e *chainsim) Run(t *core.Tape, want bool) *core.Result {
 	frames := make([]chFrame, n)
 	hasJob, nNative := false, 0
 	for i := range frames {
-		frames[i] = chFrame{kind: chKindTable[W.Draw(len(chKindTable))], sel: W.Draw(nJobSel * 3)}
+		frames[i] = chFrame{kind: chKindTable[W.Draw(len(chKindTable))], sel: W.Draw(nJobSel * nGenSel)}
 		if frames[i].kind == cjJob && !frames[i].jobSync() {
 			hasJob = true
 		}
@@ -117,8 +116,11 @@ func (e *chainsim) Run(t *core.Tape, want bool) *core.Result {
 	var codes []string
 	for _, f := range frames {
 		c := chKindCodes[f.kind]
-		if f.kind == cjJob || f.kind == cjGen {
+		switch f.kind {
+		case cjJob:
 			c += fmt.Sprint(f.sel % nJobSel)
+		case cjGen:
+			c += fmt.Sprint(f.sel % nGenSel)
 		}
 		codes = append(codes, c)
 	}
@@ -240,10 +242,11 @@ func (e *chainsim) Run(t *core.Tape, want bool) *core.Result {
 					out.reuse = fmt.Sprintf("RunString(\"1+1\") gave %v, %s", v, chErrKind(err))
 					return
 				}
-				id, _ := goja.AssertFunction(rt.Get("chId"))
-				if id == nil {
-					idv, _ := rt.RunString("(function(x){ return x + 1; })")
-					id, _ = goja.AssertFunction(idv)
+				idv, _ := rt.RunString("(function(x){ return x + 1; })")
+				id, ok := goja.AssertFunction(idv)
+				if !ok {
+					out.reuse = "a later RunString did not produce a function"
+					return
 				}
 				if v, err := id(goja.Undefined(), rt.ToValue(6)); err != nil || v.ToInteger() != 7 {
 					out.reuse = fmt.Sprintf("a later Callable gave %v, %s", v, chErrKind(err))
@@ -258,8 +261,11 @@ func (e *chainsim) Run(t *core.Tape, want bool) *core.Result {
 		fmt.Fprintf(&sb, "// entry: %s; payload raised by the innermost frame f%d: %s; chain (outermost first):\n", chEntryNames[entry], n+1, chPayloadNames[payload])
 		for k, f := range frames {
 			fmt.Fprintf(&sb, "//   f%d %s", k+1, chKindNames[f.kind])
-			if f.kind == cjJob || f.kind == cjGen {
+			switch f.kind {
+			case cjJob:
 				fmt.Fprintf(&sb, " (variant %d)", f.sel%nJobSel)
+			case cjGen:
+				fmt.Fprintf(&sb, " (variant %d)", f.sel%nGenSel)
 			}
 			sb.WriteByte('\n')
 		}
@@ -314,11 +320,9 @@ func (e *chainsim) Run(t *core.Tape, want bool) *core.Result {
 	tickAt, depthLimit := int64(-1), -1
 	switch payload {
 	case cpIntrTick:
-		if cf.ticks == 0 {
-			res.OutOfScope = "no VM tick in the fault-free run"
-			return res
-		}
-		tickAt = int64(faultPos) % cf.ticks
+		if cf.ticks > 0 {
+			tickAt = int64(faultPos) % cf.ticks
+		} // else: a chain of host functions only, no VM instruction at all: nothing to interrupt, the run is the fault-free run
 	case cpDepth:
 		depthLimit = faultPos % (cf.maxDepth + 2)
 	}
@@ -521,8 +525,8 @@ func (e *chainsim) judgeExact(res *core.Result, fo *chOutcome, m *chModel, sig s
 			if final.strictTop {
 				// the throw site: the raiser. For the Error subclass the constructor frame (which runs super()) comes first.
 				i := 0
-				if r.payload == cpJsCustomError && len(st) > 1 && st[0].FuncName() == "MyErr" {
-					i = 1
+				if r.payload == cpJsCustomError && len(st) > 1 && st[0].Position().Line == 1 {
+					i = 1 // the class constructor on line 1
 				}
 				if got, line := st[i].FuncName(), st[i].Position().Line; got != chFn(r.n+1) || line != raiserLine {
 					fail("stack-top-frame", "top frame of Exception.Stack() is %s at line %d, the value was thrown in %s at line %d", got, line, chFn(r.n+1), raiserLine)
@@ -596,7 +600,7 @@ func (e *chainsim) judgeUncatchable(res *core.Result, fo, cf *chOutcome, detail 
 	if fo.err == nil {
 		// not struck: the limit was never reached / no VM instruction ran after Interrupt(). Then the run IS the fault-free run.
 		switch {
-		case r.payload == cpIntrTick:
+		case r.payload == cpIntrTick && r.tickAt >= 0:
 			fail("uncatchable-error-type", "the call returned normally (%s) although Interrupt() was called at VM tick %d", chOutcomeDesc(fo), r.tickAt)
 			return
 		case r.payload == cpIntrNative && r.fired && !fo.pending:
@@ -652,5 +656,3 @@ func evAtS(l []string, i int) string {
 	}
 	return "<end of log>"
 }
-
-var _ = errors.Is
